@@ -165,3 +165,17 @@ Theorem C06_step_comm_eq_refuted : forall K (O : Ops K), exists sh a b br,
   flat_map (step O sh b) (step O sh a br) <> flat_map (step O sh a) (step O sh b br).
 Proof. exact @step_comm_eq_refuted. Qed.
 Print Assumptions C06_step_comm_eq_refuted.
+
+(* ---- measurement-like operations beyond the computational-basis measurement (Xform/PauliMeas.v) ----
+   A Pauli-basis measurement enters the reference semantics through its signed observable s.P as the keyed pair
+   [(I + sP)/2 ; (I - sP)/2]: for every string over {I,X,Y,Z} of length <= 3 and both signs the pair is the
+   complementary, orthogonal, self-adjoint, idempotent resolution of s.P (exactly, in Q(zeta_8)) *)
+From VF Require Import Xform.PauliMeas Xform.PauliMeasProofs.
+Theorem C06_pauli_proj_table_ok :
+  forallb (fun l => pauli_proj_ok false l && pauli_proj_ok true l) (pauli_strings_upto 3) = true.
+Proof. exact pauli_proj_table_ok. Qed.
+Print Assumptions C06_pauli_proj_table_ok.
+
+Theorem C06_pauli_proj_table_spec : forall neg l, In l (pauli_strings_upto 3) -> pauli_proj_spec neg l.
+Proof. exact pauli_proj_table_spec. Qed.
+Print Assumptions C06_pauli_proj_table_spec.
